@@ -654,11 +654,11 @@ func (t *c21Types) typesStr() string {
 // Judging one runner output against Parser.Types (independent of the Lean validator)
 
 type c21Node struct {
-	typ       int
-	off, end  int
-	kids      []int
-	acc       map[string]string
-	accOrder  []string
+	typ      int
+	off, end int
+	kids     []int
+	acc      map[string]string
+	accOrder []string
 }
 
 func c21ParseOut(out string) ([]c21Node, bool) {
@@ -833,10 +833,10 @@ func (t *c21Types) nontrivial() bool {
 // ---------------------------------------------------------------------------------------------
 
 type c21Item struct {
-	g      *Gram // compiled grammar view
-	gp     *GenParser
-	t      *c21Types
-	o      *c21Opts
+	g  *Gram // compiled grammar view
+	gp *GenParser
+	t  *c21Types
+	o  *c21Opts
 	// fieldsOnly: the grammar has a possibly-empty node (only generated once the [C21-empty-node] probe
 	// passes): the non-emptiness condition of checkTypes does not apply, `fields` = checkFields is asked.
 	fieldsOnly bool
@@ -950,15 +950,18 @@ func c21(c *Ctx) {
 	nG := c.N(40, 480)
 	batchSize := c.N(40, 80)
 	c21Shipped(c)
+	famN := 0
 	for done := 0; done < nG; done += batchSize {
 		var items []*c21Item
 		for k := 0; k < batchSize && done+k < nG; k++ {
-			if k%3 == 2 {
-				// every third grammar comes from one of the hand-shaped families (c21fam.go), in rotation
+			if k%5 == 1 || k%5 == 3 {
+				// two of five grammars come from the hand-shaped families (c21fam.go), in rotation
 				for tries := 0; tries < 20; tries++ {
 					name := fmt.Sprintf("t%d", done+k)
 					o := &c21Opts{Comment: c.Rng.Intn(3) == 0}
-					fam, tm := c21Family(c.Rng, (done+k)/3, name, o.Comment)
+					// own PRNG per family grammar: tuning one family does not shift the others
+					fr := rand.New(rand.NewSource(c.Seed*1000003 + int64(done+k)*7919 + int64(tries)))
+					fam, tm := c21Family(fr, famN, name, o.Comment)
 					gp := compileTM(name, tm, TMOpts{})
 					if gp.Err != nil {
 						c.Count("family " + fam + ": compiler rejects: " + firstWords(c21ErrClass(errSummary(gp.Err)), 7))
@@ -968,6 +971,7 @@ func c21(c *Ctx) {
 						continue
 					}
 					c.Count("family " + fam)
+					famN++
 					items = append(items, &c21Item{g: c21Gram(gp), gp: gp, t: newC21Types(gp), o: o})
 					break
 				}
